@@ -69,6 +69,22 @@ type ZN0 struct {
 	Top string
 }
 
+// a field promoted through an embedded pointer (depth 1) hides a field of the same name that is
+// promoted through two levels of by-value embedding (depth 2)
+type ZXA struct {
+	X     int
+	OnlyA string
+}
+type ZXB struct{ ZXA }
+type ZXP struct {
+	X     int
+	OnlyP string
+}
+type ZPtrShallow struct {
+	ZXB
+	*ZXP
+}
+
 type ZOuter struct {
 	ZBase
 	*ZPEmb
@@ -98,6 +114,7 @@ type ZOuter struct {
 	Word    string
 	Nest    ZN0
 	Win     []string // a window on a longer backing array: cap > len
+	PS      ZPtrShallow
 	private string
 }
 
@@ -129,6 +146,7 @@ func zooRoot(variant int) interface{} {
 		Word:  "hello",
 		Nest:  ZN0{ZN1: ZN1{ZN2: ZN2{ZCore: ZCore{First: "one", Second: "two", Third: "three"}}, Mid: "mid"}, Top: "top"},
 		Win:   []string{"w0", "w1", "w2", "SECRET-1", "SECRET-2"}[:3],
+		PS:    ZPtrShallow{ZXB: ZXB{ZXA{X: 1, OnlyA: "only-a"}}, ZXP: &ZXP{X: 2, OnlyP: "only-p"}},
 	}
 	switch variant {
 	case 0:
@@ -137,6 +155,7 @@ func zooRoot(variant int) interface{} {
 		return o
 	case 2: // nil pointers / nil maps / nil interface everywhere
 		o.ZPEmb, o.PIn, o.PPIn, o.M, o.MA, o.Iface, o.Items = nil, nil, nil, nil, nil, nil, nil
+		o.PS.ZXP = nil
 		return &o
 	case 3: // typed nil in the interface, pointer to nil pointer
 		var np *ZInner
